@@ -37,6 +37,8 @@ ASSUMPTIONS = [
     'SetPS / AttributePS columns are covered by the theorems but not generated',
     'the iteration order of the frozenset children_dict[c] is a parameter of the model; results are compared as sets',
 ]
+BACKENDS = ['BinTableLists', 'BinTableNumpy', 'BinTableBitarray']
+COQ_BACKEND = {'BinTableLists': 'BLists', 'BinTableNumpy': 'BNumpy', 'BinTableBitarray': 'BBitarray'}
 ALGOS = ['CbO', 'Lindig', 'Sofia', 'Sofia', 'sub', 'sub']
 ENGINES = ['IntervalPS', 'IntervalNumpyPS']
 
@@ -64,7 +66,9 @@ def make_context(case, which):
         rows = [[cell(v, case['engines'][j]) for j, v in enumerate(r)] for r in data]
         return MVContext(data=rows, pattern_types=ptypes, attribute_names=anames, object_names=names)
     from fcapy.context import FormalContext
-    return FormalContext(data=[list(r) for r in data], object_names=names)
+    backend = case.get('train_backend' if which == 'train' else 'test_backend')
+    kw = {'backend': backend} if backend else {}
+    return FormalContext(data=[list(r) for r in data], object_names=names, **kw)
 
 
 def build_lattice(case, K):
@@ -78,7 +82,32 @@ def build_lattice(case, K):
         L = ConceptLattice.from_context(K, algo='CbO')
         cs = list(L)
         keep = [0, len(cs) - 1] + [i for i in case['keep'] if 0 < i < len(cs)]
-        return ConceptLattice([cs[i] for i in sorted(set(keep))])
+        kept = [cs[i] for i in sorted(set(keep))]
+        if case.get('rebuild') and not case.get('mv'):
+            # some concepts re-created by the user with FormalConcept.from_objects from a SHUFFLED object listing:
+            # is_extent=True keeps the given order (extent_i not increasing - legitimate: equality and hash sort it),
+            # is_extent=False closes the object set
+            import random as _random
+            from fcapy.lattice.formal_concept import FormalConcept
+            for pos, seed, is_extent, by_name, extra in case['rebuild']:
+                r = _random.Random(seed)
+                if extra:
+                    objs = r.sample(range(K.n_objects), r.randint(1, K.n_objects))
+                    is_extent = False
+                else:
+                    pos = pos % len(kept)
+                    objs = list(kept[pos].extent_i)
+                    r.shuffle(objs)
+                    if seed % 3 == 0:
+                        objs.sort(reverse=True)
+                arg = [K.object_names[g] for g in objs] if by_name else objs
+                new = FormalConcept.from_objects(arg, K, is_extent=bool(is_extent))
+                if extra:
+                    if new not in kept:
+                        kept.insert(1 + seed % max(1, len(kept) - 1), new)
+                else:
+                    kept[pos] = new
+        return ConceptLattice(kept)
     return ConceptLattice.from_context(K, algo=algo)
 
 
@@ -238,7 +267,8 @@ def coq_mv_intent(case, intent):
 
 def coq_ctx(case, info):
     if not case.get('mv'):
-        return '(TFormal %s %s)' % (coq(info['intents']), coq(case['test']))
+        return '(TFormal %s %s %s)' % (COQ_BACKEND[case.get('test_backend') or 'BinTableBitarray'],
+                                       coq(info['intents']), coq(case['test']))
     test = case['test']
     w = len(case['engines'])
     cols = []
@@ -258,7 +288,7 @@ def to_coq(case, out):
     info = {'exts': [], 'intents': [], 'children': [], 'top': 0}
     if out[0] == 'ok' and 'skip' in out[1]:
         # skipped input: a degenerate case that checks to 0 (refusal of a monotone lattice)
-        return ('Build_c17_case [] (TFormal [] []) [] 0 true [] true (IErr %d)' % ERR_KINDS['NotImplementedError'])
+        return ('Build_c17_case [] (TFormal BBitarray [] []) [] 0 true [] true (IErr %d)' % ERR_KINDS['NotImplementedError'])
     if out[0] == 'ok':
         o = out[1]
         info = o['info']
@@ -277,8 +307,9 @@ def to_coq(case, out):
 # ------------------------------------------------------------------ generation
 
 def _mk(train, algo, test, names, by_index, L_max=100, keep=None, mono=False, kind='', test_kind='',
-        mv=False, engines=None, history=None, share_names=False):
-    return {'share_names': share_names, 'train': train, 'algo': algo, 'L_max': L_max, 'keep': keep or [], 'mono': mono, 'test': test,
+        mv=False, engines=None, history=None, share_names=False, train_backend=None, test_backend=None,
+        rebuild=None):
+    return {'rebuild': rebuild or [], 'train_backend': train_backend, 'test_backend': test_backend, 'share_names': share_names, 'train': train, 'algo': algo, 'L_max': L_max, 'keep': keep or [], 'mono': mono, 'test': test,
             'names': names, 'by_index': by_index, 'kind': kind, 'test_kind': test_kind, 'mv': mv,
             'engines': engines or [], 'history': history or []}
 
@@ -293,8 +324,64 @@ def n_extents(table):
     return len(exts)
 
 
+def scale_table(rng, max_dim):
+    """Tables whose intents are runs of neighbouring attribute indexes: ordinal scales, interval-like rows, wide."""
+    w = rng.randint(4, max(5, max_dim + 2))
+    h = rng.randint(3, max_dim)
+    kind = rng.choice(['ordinal', 'runs', 'runs', 'ordinal_rev'])
+    if kind == 'ordinal':
+        t = [[j <= (i * w) // h + rng.randint(0, 1) for j in range(w)] for i in range(h)]
+    elif kind == 'ordinal_rev':
+        t = [[j >= (i * w) // (h + 1) for j in range(w)] for i in range(h)]
+    else:
+        t = []
+        for _ in range(h):
+            a = rng.randint(0, w - 3)
+            b = rng.randint(a + 2, w - 1)
+            t.append([a <= j <= b for j in range(w)])
+    return t, 'scale-' + kind
+
+
+def closed_intents(table):
+    """intents of all concepts: intersections of rows (and the full attribute set)"""
+    w = len(table[0])
+    ints = {frozenset(range(w))}
+    for r in table:
+        row = frozenset(j for j in range(w) if r[j])
+        ints |= {i & row for i in ints}
+    return [sorted(i) for i in ints]
+
+
+def miss_one_rows(rng, train, max_h):
+    """unseen objects that have every attribute of some concept intent except exactly one (first / middle / last),
+    preferring intents that are runs of >= 3 neighbouring attributes"""
+    w = len(train[0])
+    ints = [i for i in closed_intents(train) if len(i) >= 2]
+    runs = [i for i in ints if len(i) >= 3 and i[-1] - i[0] == len(i) - 1]
+    rows = []
+    for _ in range(rng.randint(2, max_h)):
+        pool = runs if runs and rng.random() < 0.75 else ints
+        if not pool:
+            rows.append([rng.random() < 0.5 for _ in range(w)])
+            continue
+        it = rng.choice(pool)
+        drop = rng.choice([it[0], it[-1], it[-1], it[len(it) // 2]])
+        extra = rng.random() < 0.3
+        rows.append([(j in it and j != drop) or (extra and j not in it and rng.random() < 0.3) for j in range(w)])
+    if rng.random() < 0.5 and pool:
+        it = rng.choice(pool)
+        rows.append([j in it for j in range(w)])          # and one that has the whole intent
+    return rows
+
+
 def train_table(rng, max_dim):
     best = None
+    if rng.random() < 0.22:
+        for _ in range(6):
+            t, kind = scale_table(rng, max_dim)
+            k = n_extents(t)
+            if 3 <= k <= 20:
+                return t, kind, k
     for _ in range(6):
         if rng.random() < 0.5:
             h, w = rng.randint(2, max_dim), rng.randint(2, max_dim)
@@ -367,7 +454,9 @@ def redescribed(rng, train):
 def test_table(rng, train, max_h):
     w = len(train[0])
     kind = rng.choice(['training', 'unseen', 'unseen', 'unseen', 'all_false', 'all_true', 'mixed', 'mixed',
-                       'train_rows_shuffled', 'redescribed', 'redescribed'])
+                       'train_rows_shuffled', 'redescribed', 'redescribed', 'miss_one', 'miss_one'])
+    if kind == 'miss_one':
+        return miss_one_rows(rng, train, max_h), kind
     if kind == 'redescribed':
         r = redescribed(rng, train)
         if r is not None:
@@ -429,8 +518,19 @@ def random_case(rng, max_dim, history=False):
     names = rng.sample(range(60), len(test))
     hist = random_history(rng) if history else None
     share = tk.startswith('redescribed') or (tk == 'training' and rng.random() < 0.5)
+    # the back-ends of the training and of the traced context, independently (None = the default one)
+    tr_b = rng.choice([None, None] + BACKENDS)
+    te_b = rng.choice([None] + BACKENDS + ['BinTableNumpy', 'BinTableLists'])
+    if kind.startswith('scale') and tk != 'miss_one' and rng.random() < 0.6:
+        test, tk = miss_one_rows(rng, train, max_dim + 1), 'miss_one'
+        names = rng.sample(range(60), len(test))
+        share = False
+    rebuild = None
+    if algo == 'sub' and rng.random() < 0.6:
+        rebuild = [[rng.randrange(50), rng.randrange(1000), rng.random() < 0.7, rng.random() < 0.5, rng.random() < 0.2]
+                   for _ in range(rng.randint(1, 4))]
     return _mk(train, algo, test, names, rng.random() < 0.5, L_max, keep, mono, kind, tk, history=hist,
-               share_names=share)
+               share_names=share, train_backend=tr_b, test_backend=te_b, rebuild=rebuild)
 
 
 # ---- many-valued
@@ -677,6 +777,12 @@ def stats(case):
     for op in case.get('history') or []:
         d['history_op'] = op[0]
     d['same_object_names'] = bool(case.get('share_names'))
+    if case['algo'] == 'sub' and not case.get('mv'):
+        d['sub-list concepts'] = 'some re-created by from_objects (shuffled objects)' if case.get('rebuild') else 'as mined'
+    if not case.get('mv'):
+        d['backends(train/test)'] = '%s/%s' % ((case.get('train_backend') or 'default').replace('BinTable', ''),
+                                               (case.get('test_backend') or 'default').replace('BinTable', ''))
+        d['train_kind'] = case.get('kind', '').split('/')[0]
     return d
 
 
